@@ -192,6 +192,14 @@ func buildTest(ctx *context, rs runSpec) (bin string, errOut string) {
 	if rs.gcflags != "" {
 		args = append(args, rs.gcflags)
 	}
+	if os.Getenv("VERIF_COVER") != "" && !rs.race {
+		// development aid: statement coverage of the repository's packages under the harness
+		lc := exec.Command("go", "list", "./...")
+		lc.Dir = filepath.Join(ctx.repo, ctx.p.module)
+		lc.Env = goEnv()
+		lo, _ := lc.Output()
+		args = append(args, "-cover", "-coverpkg="+strings.Join(strings.Fields(string(lo)), ","))
+	}
 	args = append(args, "./"+rs.pkgOr(ctx.p))
 	cmd := exec.Command("go", args...)
 	cmd.Dir = filepath.Join(ctx.repo, ctx.p.module)
@@ -226,6 +234,9 @@ func runChild(ctx *context, rs runSpec, bin string, ag *aggregate, from, to, sha
 	// timeout -s QUIT gives a goroutine dump on a hang; output goes to a file
 	cmd := exec.Command("timeout", "-s", "QUIT", "-k", "10", strconv.Itoa(secs),
 		bin, "-test.run", rs.test, "-test.timeout", "0", "-test.v")
+	if d := os.Getenv("VERIF_COVER"); d != "" && !rs.race {
+		cmd.Args = append(cmd.Args, "-test.coverprofile", filepath.Join(d, fmt.Sprintf("%s-%s-%s.cov", ctx.p.id, rs.name, tag)))
+	}
 	cmd.Dir = filepath.Join(ctx.repo, ctx.p.module, rs.pkgOr(ctx.p))
 	cmd.Env = env
 	f, _ := os.Create(stdout)
